@@ -109,6 +109,17 @@ impl<E: FieldElement, H: ElementHasher<BaseField = E::BaseField>> VerifierChanne
             .parse(main_trace_width, aux_trace_width, constraint_frame_width)
             .map_err(|err| VerifierError::ProofDeserializationError(err.to_string()))?;
 
+        // the out-of-domain frame must contain a Lagrange kernel frame exactly when the AIR has a
+        // Lagrange kernel column
+        if air.context().has_lagrange_kernel_aux_column()
+            != ood_trace_frame.lagrange_kernel_frame().is_some()
+        {
+            return Err(VerifierError::ProofDeserializationError(
+                "Lagrange kernel OOD frame must be provided if and only if the trace has a Lagrange kernel column"
+                    .to_string(),
+            ));
+        }
+
         Ok(VerifierChannel {
             // trace queries
             trace_roots,
